@@ -129,7 +129,7 @@ impl Decimal256 {
                 proof {
                     assert(all_digits(parts@[1]@));
                     assert(all_ascii(parts@[1]@));
-                    assert(exp as nat == 18 - parts@[1]@.len());
+                    /*[C18 dec.parse.exponent]*/ assert(exp as nat == 18 - parts@[1]@.len());
                     lemma_p10_step(exp as nat);
                     lemma_p10_le_dd(exp as nat);
                     lemma_dd_lt_p256();
@@ -148,9 +148,12 @@ impl Decimal256 {
 //%fn packages/bignumber/src/math.rs | impl fmt::Display for Decimal256 | fmt
 //%%rewrite #1 /write!\(f, "\{\}", whole\)/ => f.write_str(&whole.to_string()) ## write!(f, "{}", x) with x: U256 = the Display text of x written to f
 //%%rewrite #1 /"0"\.repeat\(18 - fractional_string\.len\(\)\) \+ &fractional_string/ => vconcat("0".repeat(18 - vlen_str(&fractional_string)), &fractional_string) ## String + &str and str::len -> assumed helpers (std)
-//%%rewrite #1 /fractional_string\.trim_end_matches\('0'\)/ => vtrim_end_matches(&fractional_string, '0') ## str::trim_end_matches(char) -> assumed helper (std)
+//%%rewrite #? /fractional_string\.trim_end_matches\('0'\)/ => vtrim_end_matches(&fractional_string, '0') ## str::trim_end_matches(char) -> assumed helper (std)
 //%%sig
     ensures
+//%if A
+        /*[C18 dec.render.no-abort]*/ r is Ok,
+//%endif
         /*[C18 dec.render.canonical]*/ r is Ok ==> final(f).out@ == old(f).out@ + render_dec(self.0.v()),
 //%%head
         broadcast use {mlem::lemma_decimal_fractional, axiom_utf8_len_ascii};
@@ -159,7 +162,7 @@ impl Decimal256 {
             proof {
                 assert("0"@ =~= seq!['0']);
                 assert(fractional_string@ =~= pad18(fractional.v()));
-                assert(f.out@ =~= old(f).out@ + render_dec(self.0.v()));
+                /*[C18 dec.render.witness]*/ assert(f.out@ =~= old(f).out@ + render_dec(self.0.v()));
             }
 //%%insert before #1 /let fractional_string = fractional\.to_string\(\);/
             proof { lemma_dd_pow(); lemma_digits_props(fractional.v()); lemma_digits_len(fractional.v(), 18); }
